@@ -10,6 +10,7 @@ mod genfilter;
 mod genlua;
 mod c15;
 mod c16;
+mod c17;
 mod cases;
 mod gal;
 mod genlib;
@@ -71,6 +72,7 @@ fn main() {
         "c01" => c01::generate(a.seed, a.n, a.thorough).write(&a.out, a.shards, a.only),
         "c06" => c06::generate(a.seed, a.n, a.thorough).write(&a.out, a.shards, a.only),
         "c16" => c16::generate(a.seed, a.n, a.thorough).write(&a.out, a.shards, a.only),
+        "c17" => c17::generate(a.seed, a.n, a.thorough).write(&a.out, a.shards, a.only),
         "lint" => lint::run(&a.rest),
         _ => {
             eprintln!("usage: vharness <c15|...> --seed S --n N --shards K --out DIR [--only I] [--thorough]");
